@@ -120,7 +120,12 @@ func (w *World) runPair(n int, c Cookie, r *rand.Rand) []Line {
 // its own tokens; the authenticator confirms one pair of tokens and says the other was revoked, and answers
 // slowly so that the two checks overlap. Each request is an ordinary one-step cell: the revoked one must be
 // refused and its cookie cleared.
-func (w *World) runTwinPair(n int, c Cookie, r *rand.Rand) []Line {
+//
+// With copied = true the two cookies are copies of ONE session (the same tokens: a cookie lifted to a second device,
+// or an old copy next to the live one) that differ in what they themselves say about their remaining lifetime; the
+// authenticator confirms the tokens. The two checks may be merged into one back-channel call; what each cookie
+// says about its own lifetime must survive that (C04: no response moves the lifetime deadline).
+func (w *World) runTwinPair(n int, c Cookie, r *rand.Rand, copied bool) []Line {
 	now := time.Now()
 	host := hostGroup
 	pol := Policy{Group: true}
@@ -141,10 +146,20 @@ func (w *World) runTwinPair(n int, c Cookie, r *rand.Rand) []Line {
 	vals := make([]string, 2)
 	resps := make([]*world.Resp, 2)
 	tags := []string{"twin-good", "twin-gone"}
+	cs := []Cookie{c, c}
+	note := "concurrent pair: two sessions of one user at one upstream, one of them revoked"
+	if copied {
+		tags = []string{"copy-a", "copy-b"}
+		cs[r.Intn(2)].Life = 1 + r.Intn(2)
+		note = "concurrent pair: two copies of one session (same tokens) whose cookies state different remaining lifetimes"
+	}
 	for i := range vals {
-		s := Session(c, host, now, r)
+		s := Session(cs[i], host, now, r)
 		s.Email, s.User = "user@allowed.test", "user"
 		s.AccessToken, s.RefreshToken = []string{"at-good", "at-gone"}[i], []string{"rt-good", "rt-gone"}[i]
+		if copied {
+			s.AccessToken, s.RefreshToken = "at-good", "rt-good"
+		}
 		vals[i] = w.P.Seal(s)
 	}
 	var wg sync.WaitGroup
@@ -165,6 +180,9 @@ func (w *World) runTwinPair(n int, c Cookie, r *rand.Rand) []Line {
 	wg.Wait()
 	// the two sessions carry different tokens: every back-channel call can be attributed to its request
 	mine := []map[string]bool{{"at-good": true, "rt-good": true, "at-new": true}, {"at-gone": true, "rt-gone": true}}
+	if copied {
+		mine[1] = mine[0] // merged or not, the calls cannot be told apart: the union (can hide a call, never fake one)
+	}
 	var lines []Line
 	for i := 0; i < 2; i++ {
 		resp := resps[i]
@@ -184,7 +202,7 @@ func (w *World) runTwinPair(n int, c Cookie, r *rand.Rand) []Line {
 			o.Calls = append(o.Calls, ep)
 		}
 		sort.Strings(o.Calls)
-		pre := c
+		pre := cs[i]
 		pre.Email, pre.Tok = "match", "old"
 		after, touched := resp.CookieAfter(w.P.CookieName, vals[i])
 		switch {
@@ -201,18 +219,21 @@ func (w *World) runTwinPair(n int, c Cookie, r *rand.Rand) []Line {
 		}
 		a := Ans{Refresh: "na", Rexp: 3, Validate: "na", Profile: "na"}
 		verdict := []string{"ok", "s401"}[i]
+		if copied {
+			verdict = "ok"
+		}
 		if refreshing {
 			a.Refresh = verdict
 		} else {
 			a.Validate = verdict
 		}
-		if pol.Group && i == 0 {
+		if pol.Group && (i == 0 || copied) {
 			a.Profile = "member"
 		}
 		q := Req{Kind: "page", Path: "normal"}
 		cc, pp := pre, pol
 		lines = append(lines, Line{Ev: "cell", Case: n + i, C: &cc, Pol: &pp, Req: &q, Ans: &a, Out: &o,
-			Conc: &Concrete{Host: host, Method: "GET", Target: "/" + tags[i], Note: "concurrent pair: two sessions of one user at one upstream, one of them revoked"}})
+			Conc: &Concrete{Host: host, Method: "GET", Target: "/" + tags[i], Note: note}})
 	}
 	return lines
 }
@@ -224,7 +245,7 @@ func RunPairs(out string, seed int64, n, workers int) (*Summary, error) {
 	}
 	all := make([][]Line, n)
 	var wg sync.WaitGroup
-	errs := make(chan error, workers+1)
+	errs := make(chan error, workers+8)
 	for wk := 0; wk < workers; wk++ {
 		wg.Add(1)
 		go func(wk int) {
@@ -242,20 +263,60 @@ func RunPairs(out string, seed int64, n, workers int) (*Summary, error) {
 					c.Ref = -1
 					c.Val = []int{-1, 0, 1}[r.Intn(3)]
 				}
-				if j%2 == 0 {
+				switch j % 3 {
+				case 0:
 					all[j] = w.runPair(20000000+2*j, c, r)
-				} else {
-					all[j] = w.runTwinPair(20000000+2*j, c, r)
+				case 1:
+					all[j] = w.runTwinPair(20000000+2*j, c, r, false)
+				default:
+					all[j] = w.runTwinPair(20000000+2*j, c, r, true)
 				}
 			}
 		}(wk)
 	}
+	// an authenticator that HANGS (accepts the request, never answers: the proxy's client gives up after its
+	// timeout) is "no answer", like a closed connection: ordinary cells with the class "closed", each in its own
+	// world, all at once (the wait is real time)
+	base := Cookie{Kind: "sess", SlugOk: true, HostOk: true, Life: 3, Ref: -1, Val: -1, Grace: -1, Email: "match", RT: true, Tok: "old", Grp: "in"}
+	due := base
+	due.Ref = 2
+	na := Ans{Refresh: "na", Rexp: 3, Validate: "na", Profile: "na"}
+	with := func(f func(a *Ans)) Ans { a := na; f(&a); return a }
+	q := Req{Kind: "page", Path: "normal"}
+	hangCells := []Cell{
+		{C: base, Pol: Policy{Email: true}, Req: q, Ans: with(func(a *Ans) { a.Refresh = "closed" })},
+		{C: base, Pol: Policy{Group: true}, Req: q, Ans: with(func(a *Ans) { a.Refresh = "closed" })},
+		{C: base, Pol: Policy{Group: true}, Req: q, Ans: with(func(a *Ans) { a.Refresh = "ok"; a.Profile = "closed" })},
+		{C: due, Pol: Policy{Group: true}, Req: q, Ans: with(func(a *Ans) { a.Validate = "ok"; a.Profile = "closed" })},
+		{C: due, Pol: Policy{Email: true}, Req: q, Ans: with(func(a *Ans) { a.Validate = "closed" })},
+	}
+	hang := make([]Line, len(hangCells))
+	world.ExpectTimeouts(true)
+	for i := range hangCells {
+		wg.Add(1)
+		go func(i int) {
+			defer wg.Done()
+			w, err := NewWorld()
+			if err != nil {
+				errs <- err
+				return
+			}
+			defer w.Close()
+			w.Hang = true
+			hang[i] = w.RunCell(29000000+i, hangCells[i], rand.New(rand.NewSource(seed*7919+int64(i))))
+			if hang[i].Conc != nil {
+				hang[i].Conc.Note = "the authenticator accepts the call and never answers"
+			}
+		}(i)
+	}
 	wg.Wait()
+	world.ExpectTimeouts(false)
 	select {
 	case err := <-errs:
 		return nil, err
 	default:
 	}
+	all = append(all, hang)
 	f, err := os.Create(out)
 	if err != nil {
 		return nil, err
